@@ -446,6 +446,18 @@ fn curve_item(rep: &mut Report, rng: &mut Rng, args: &Args, ad: &dyn CAd, c: Com
             }
         }
     }
+    // 5b. coordinates where the recovery formula itself degenerates (zero denominator): no point, no panic
+    if compressed {
+        for co in ad.degenerate_coords() {
+            for neg in [false, true] {
+                let b = enc::field(fi, &co, 1, if neg { 0x80 } else { 0 });
+                for v in both {
+                    rep.class("rejected: ordinate with a zero denominator in the recovery formula");
+                    cx.offer(rep, &b, v, false, "ordinate with a - d*y^2 = 0", Expect::Reject("no-root"), None, false);
+                }
+            }
+        }
+    }
     // 6. points of the curve outside the prime-order subgroup
     if ci.cofactor > UInt::one() {
         let mut seen = 0;
